@@ -1,4 +1,5 @@
 import Pm.Dev2Count
+import Pm.ClientStream
 /-! # C04 — every request gets exactly one final answer, in bounded time
 
 Ranking: conservation of completions (device half of `pending_eq_queued`: done) ▸ one terminal reply per
@@ -15,5 +16,136 @@ theorem C04_completions_conserved (fuel : Nat) (c : CS) (o : Oracle) (out : List
     fcount cid (processActionF fuel c o out tmo).2.2.1 + qcount cid (processActionF fuel c o out tmo).1.dev.acts
       = fcount cid out + qcount cid c.dev.acts :=
   completions_conserved fuel c o out tmo cid hc
+
+
+/-! ## client half: one terminal reply per request line
+
+`Pm.Daemon.parseLine` is the mirror of `client.c:_parse_input`, `handleInput` of `_handle_input`, `actFinish` of
+`_act_finish`.  Output is described by `render : List Item → Bytes` (`Item.line code text` ↦ `NNN␠text\r\n`,
+`Item.prompt` ↦ `powerman> `); `outOf w c` is everything sent to client `c` so far in this pass (bytes already handed to
+`write(2)`, then what waits in its `to` buffer); `i.lineIn cs` says that item `i` is a line whose code is in `cs`.
+Helper lemmas: `Pm/ClientProof.lean`, `Pm/ClientStream.lean`. -/
+section client
+open Pm Pm.Daemon Pm.Client
+
+/-- For every byte string `line`, every client state and every world, one call of `_parse_input` has exactly one of three
+    outcomes:
+
+    (a) the process is gone — and then nothing else changed, and the cause is the `hostlist_sort` assertion, on the
+        configured node list (`nodes`) or on a device's plug list (`device`); never `hostlist_create` (F1 is repaired);
+    (b) the line was answered at once: the client's output grew by `render items` where `items` is zero or more
+        informational lines (301, 304, 306, 307), then exactly ONE terminal line (101, 103, 104, 105, 201, 205, 208, 209, 213),
+        then the prompt exactly when the code is neither 208 nor 101 and the client has not quit; the bytes sit in `to`
+        (or, for `quit`, went through `_handle_write`: see `QuitFlush`); the command in progress is untouched;
+    (c) a command was installed with `pending > 0`: possible only when none was in progress; nothing is written yet (the
+        single terminal reply comes from `_act_finish`, see `C04_completion_reply`). -/
+theorem C04_one_reply_per_line (w : W) (c : Cli) (line : Pm.Client.Bytes) :
+    ((parseLine w c line) = ({ w with exited := true }, c) ∧
+        (sortHL w.cfg.nodes = .abort ∨ ∃ nd ∈ w.devs, sortHL (devHosts nd.2) = .abort)) ∨
+    (∃ infos code text,
+        (∀ i ∈ infos, i.lineIn [301, 304, 306, 307] = true) ∧
+        code ∈ [101, 103, 104, 105, 201, 205, 208, 209, 213] ∧
+        (∃ items, items = infos ++ [Item.line code text] ++
+              (if promptAfter (parseLine w c line).2.quit code then [Item.prompt] else []) ∧
+          outOf (parseLine w c line).1 (parseLine w c line).2 = outOf w c ++ render items ∧
+          (((parseLine w c line).2.toBuf = c.toBuf ++ render items ∧ (parseLine w c line).1.sys = w.sys) ∨
+            QuitFlush w c (parseLine w c line) items)) ∧
+        (parseLine w c line).2.cmd = c.cmd ∧ (parseLine w c line).1.exited = w.exited) ∨
+    (c.cmd = none ∧ ∃ k, (parseLine w c line).2.cmd = some k ∧ 0 < k.pending ∧
+        (parseLine w c line).2.toBuf = c.toBuf ∧ (parseLine w c line).1.sys = w.sys ∧
+        (parseLine w c line).1.exited = w.exited) := by
+  cases parseLine_shape w c line with
+  | exit h cause => exact Or.inl ⟨h, cause⟩
+  | reply items shape out buf cmd ex clean prompted =>
+    obtain ⟨infos, code, text, hitems, hi, hc⟩ := shape
+    exact Or.inr (Or.inl ⟨infos, code, text, hi, hc, ⟨items, hitems, out, buf⟩, cmd, ex⟩)
+  | installed k idle cmd pending buf sys ex => exact Or.inr (Or.inr ⟨idle, k, cmd, pending, buf, sys, ex⟩)
+
+/-- the prompt rule of `_parse_input`, spelled out -/
+theorem C04_prompt_rule (quit : Bool) (code : Nat) :
+    promptAfter quit code = true ↔ code ≠ 208 ∧ code ≠ 101 ∧ quit = false := by
+  simp [promptAfter, and_assoc]
+
+/- non-vacuity: each outcome occurs.  (Outcome (a) needs a host list on which `sortHL` aborts; `sortHL` is a `partial def`
+   and cannot be evaluated inside the logic — see `Props/C06.lean`, `C06_nodes_sort_exit`.) -/
+example : (parseLine Ex.world Ex.idle (bstr "telemetry\r\n")).2.toBuf =
+    render [.line 104 (bstr "Telemetry ON"), .prompt] := by decide +kernel
+example : (parseLine Ex.world Ex.idle (bstr "nodes\r\n")).2.toBuf =
+    render [.line 306 (bstr "t1"), .line 103 (bstr "Query complete"), .prompt] := by decide +kernel
+example : (parseLine Ex.world Ex.idle (bstr "on t[5-1]\r\n")).2.toBuf =
+    render [.line 205 (bstr "Hostlist error: invalid range"), .prompt] := by decide +kernel
+example : (parseLine Ex.world Ex.idle (bstr "on t2\r\n")).2.toBuf =
+    render [.line 209 (bstr "No such nodes: t2"), .prompt] := by decide +kernel
+example : (parseLine Ex.world Ex.idle (bstr "off t1\r\n")).2.toBuf =
+    render [.line 213 (bstr "Command cannot be handled by power control device(s)"), .prompt] := by decide +kernel
+example : written (parseLine Ex.world Ex.idle (bstr "quit\r\n")).1.sys 1000 = render [.line 101 (bstr "Goodbye")] ∧
+    (parseLine Ex.world Ex.idle (bstr "quit\r\n")).2.toBuf = [] := by decide +kernel
+example : (parseLine Ex.world Ex.idle (bstr "on t1\r\n")).2.cmd.map (·.pending) = some 1 ∧
+    (parseLine Ex.world Ex.idle (bstr "on t1\r\n")).2.toBuf = [] := by decide +kernel
+
+/-- C11 one-command rule: while a command is in progress, a request line — any bytes — is answered
+    `208 Command in progress` without a prompt, and nothing else changes, neither in the client nor in the world -/
+theorem C04_busy_is_208 (w : W) (c : Cli) (line : Pm.Client.Bytes) (h : c.cmd.isSome = true) :
+    parseLine w c line = (w, put c (render [Item.line 208 (bstr "Command in progress")])) :=
+  parseLine_busy w c line h
+
+example : (parseLine Ex.busyWorld Ex.busy (bstr "off t1\r\n")).2.toBuf = bstr "208 Command in progress\r\n" := by decide +kernel
+
+/-- `_handle_input`: unless the process is gone, every complete line of the input buffer gets exactly one answer chunk, in
+    order (`chunks.length` = number of lines; the output grew by the chunks' rendering).  A chunk is empty when its line
+    installed a command and otherwise has the shape `3xx* terminal [prompt]` of `C04_one_reply_per_line` (b).  At most one
+    chunk is empty — exactly one iff the call took the client from idle to busy — so no two commands are ever accepted
+    at once. -/
+theorem C04_one_answer_per_line (w : W) (c : Cli) :
+    (handleInput w c).1.exited = true ∨
+    ∃ chunks : List (List Item), chunks.length = (linesOf c.fromBuf).1.length ∧
+      outOf (handleInput w c).1 (handleInput w c).2 = outOf w c ++ render chunks.flatten ∧
+      (∀ ch ∈ chunks, AnswerChunk ch) ∧
+      (((handleInput w c).2.cmd = c.cmd ∧ chunks.count [] = 0) ∨
+       (c.cmd = none ∧ ∃ k, (handleInput w c).2.cmd = some k ∧ 0 < k.pending ∧ chunks.count [] = 1)) :=
+  handleInput_answers w c
+
+example : (handleInput Ex.world { Ex.idle with fromBuf := bstr "on t1\noff t1\ntelem" }).2.toBuf =
+    bstr "208 Command in progress\r\n" ∧
+    (handleInput Ex.world { Ex.idle with fromBuf := bstr "on t1\noff t1\ntelem" }).2.fromBuf = bstr "telem" := by decide +kernel
+
+/-- `_act_finish`, the other source of terminal lines.  Exactly one of: the client is gone (nothing happens); the client has
+    no command (the C `assert`); the final reply cannot be built because `hostlist_sort` asserts; more actions are
+    outstanding (`pending ≠ 1`): at most a `308` line is written and `pending` is decremented; or this was the last action
+    (`pending = 1`): the client gets `308? (302|303)* terminal prompt` with exactly one terminal line
+    (102, 103, 210 or 211) and its command is cleared — so a second final reply for the same command is impossible. -/
+theorem C04_completion_reply (w : W) (id : Nat) (err : Pm.Dev2.ActErr) (name : Pm.Client.Bytes) :
+    FinishOutcome w id err name (actFinish w id err name) :=
+  actFinish_shape w id err name
+
+example : ((actFinish Ex.busyWorld 1 .success (bstr "d")).1.clients.map fun c => (c.toBuf, c.cmd.isSome)) =
+    [(render [.line 102 (bstr "Command completed successfully"), .prompt], false)] := by decide +kernel
+example : ((actFinish Ex.busyWorld 1 .expfail (bstr "d")).1.clients.map fun c => c.toBuf) =
+    [render [.line 308 (bstr "d: action timed out waiting for expected response"),
+             .line 210 (bstr "Command completed with errors"), .prompt]] := by decide +kernel
+
+/-- "followed by a new prompt": after any request line the client's output ends with the prompt whenever the client is idle
+    and has not quit (`Prompted`) — whatever came before (`items0`) -/
+theorem C04_prompted_after_line (w : W) (c : Cli) (line : Pm.Client.Bytes) (items0 : List Item) :
+    (parseLine w c line).1.exited = true ∨
+    ∃ items, outOf (parseLine w c line).1 (parseLine w c line).2 = outOf w c ++ render items ∧
+      Prompted (parseLine w c line).2 (items0 ++ items) :=
+  parseLine_prompted w c line items0
+
+/-- … and `_act_finish` keeps it so for every client: what it appends ends with the prompt when it clears the command -/
+theorem C04_prompted_after_completion (w : W) (id : Nat) (err : Pm.Dev2.ActErr) (name : Pm.Client.Bytes) :
+    ∃ G : Cli → Cli, (actFinish w id err name).1.clients = w.clients.map G ∧
+      ∀ x, ∃ items, Appends x (G x) items ∧ ∀ items0, Prompted x items0 → Prompted (G x) (items0 ++ items) :=
+  actFinish_prompted w id err name
+
+/- The property text says "followed by a new prompt unless it was rejected as 'command in progress' or was the quit
+   command".  As coded there is a third case: a line parsed after the client has quit (later lines of the same read as
+   `quit`, or lines already buffered when EOF arrives) is answered without a prompt — `if (cmd == NULL && !c->client_quit)`.
+   The answer never reaches the client: `clientPass` destroys a client that has quit and has no command. -/
+theorem C04_prompt_after_quit_counterexample :
+    (handleInput Ex.world { Ex.idle with fromBuf := bstr "quit\ntelemetry\n" }).2.toBuf = render [.line 104 (bstr "Telemetry ON")] := by
+  decide +kernel
+
+end client
 
 end Pm.Props.C04
